@@ -223,11 +223,12 @@ impl Cqueue {
         }
 
         use generator::Error;
-        match self.selectors.lock().unwrap()[id]
+        // don't hold the lock while re-throwing the panic: that would poison it
+        // and make the drop of the cqueue panic again during the unwinding
+        let handle = self.selectors.lock().unwrap()[id]
             .take()
-            .expect("join handler not set")
-            .join()
-        {
+            .expect("join handler not set");
+        match handle.join() {
             Ok(_) => {}
             Err(panic) => {
                 if let Some(err) = panic.downcast_ref::<Error>() {
